@@ -54,6 +54,9 @@ def key_of(clause, o):
     if parts[0] == "run_raised":
         key["error"] = o["raised"].split(":")[0]
         key["stage"] = o.get("stage")
+    if o["job"].get("existing") and parts[0] in ("run_raised", "training_config_differs_from_used"):
+        key["use_existing_chunks"] = True          # the runs of the known finding C19-use-existing-chunks; nothing else carries it
+        key["model"] = o["job"]["model"]
     return key
 
 
@@ -70,6 +73,10 @@ def run(tier, seed, only=None):
     rc = check_model("MC_TrainRun", MC % "as_coded", timeout=900, expect_violation=("invariant", "NoKeyOnDisk"), workers=4)
     res.add_mc("MC_TrainRun ordering as coded at the pinned commit", rc, "must violate NoKeyOnDisk: saves before masking, masking only if use_wandb")
     jobs = only if only is not None else (covering(rng, 2) if tier == "quick" else all_configs())
+    if only is None:
+        # always one centroid run on the chunks of an earlier run (the one kind of run on re-used chunks that completes)
+        jobs.append(dict(model="centroid", fw="torch_dataset_np_chunks", wandb=False, ckpt=True, structured=False, lowmem=False,
+                         existing=True, reuse=False, bare=False, media=False))
     for k, j in enumerate(jobs):
         j.setdefault("sched", SCHED[k % 3])
         # head sections: written out explicitly, or left at the schema / builder-preset defaults (loss weights unset)
@@ -88,6 +95,8 @@ def run(tier, seed, only=None):
         j.setdefault("bare", k % 5 == 2)
         # every 6th run is given the final configuration of an earlier run, on labels whose skeleton has another name
         j.setdefault("reuse", k % 6 == 3 and not j.get("bare") and not j.get("media"))
+        # chunk-cached runs - the centroid ones and every fourth other one: the chunks were written (and kept) by an earlier run and are re-used
+        j.setdefault("existing", j["fw"] != "torch_dataset" and (j["model"] == "centroid" or k % 4 == 0) and not j.get("bare") and not j.get("reuse"))
         # output directory: given, or left unset (documented: the current working directory) - every 4th run
         j.setdefault("cwd_out", k % 4 == 1)
     obs = run_jobs(jobs, shim.REPO, seed, workers=14, timeout=900)
@@ -114,6 +123,7 @@ def run(tier, seed, only=None):
     res.clause("runs_with_seed_null", sum(1 for o in obs if o["job"].get("seed") == "null"))
     res.clause("runs_with_schema_defaults_only", sum(1 for o in obs if o["job"].get("bare")))
     res.clause("runs_reusing_an_earlier_final_configuration", sum(1 for o in obs if o["job"].get("reuse")))
+    res.clause("runs_on_chunks_of_an_earlier_run", sum(1 for o in obs if o["job"].get("existing")))
     res.clause("runs_np_chunks", sum(1 for o in obs if o["job"]["fw"] != "torch_dataset"))
     res.coverage.update(evaluations=len(traces), distinct_nontrivial=len({str(sorted(o["job"].items())) for o in obs if len(o["states"]) >= 4}),
                         exhaustive=(tier == "thorough" and only is None),
